@@ -31,6 +31,7 @@ mod g_reader;
 mod g_tsig;
 mod g_writer;
 mod g_server;
+mod g_srvans;
 mod g_zonefile;
 mod g_include;
 mod g_pool;
@@ -61,6 +62,7 @@ fn main() {
             "tsig" => g_tsig::gen(&mut rng, thorough, &mut em),
             "writer" => g_writer::gen(&mut rng, thorough, &mut em),
             "server" => g_server::gen(&mut rng, thorough, &mut em),
+            "srvans" => g_srvans::gen(&mut rng, thorough, &mut em),
             "serverdbg" => g_server::debug_big(&mut rng),
             "zonefile" => g_zonefile::gen(&mut rng, thorough, &mut em),
             "include" => g_include::gen(&mut rng, thorough, &mut em),
@@ -128,6 +130,9 @@ pub fn run_case(case: &str) -> String {
         return r;
     }
     if let Some(r) = g_server::run(op, &args) {
+        return r;
+    }
+    if let Some(r) = g_srvans::run(op, &args) {
         return r;
     }
     if let Some(r) = g_zonefile::run(op, &args) {
